@@ -470,6 +470,16 @@ def run(sc, linger=None, shutdown_again=True):
         top, objs = build(sc)
 
         async def main():
+            if sc.get("rerun"):
+                # the same scheduler object run a first time, to its end; what is judged is the SECOND run
+                try:
+                    await top.co_run()
+                except Hang:
+                    raise
+                except Exception:                           # noqa
+                    pass
+                await asyncio.sleep(linger)
+                emit("rerun", None)
             try:
                 res["r"] = ("ret", await top.co_run())
             except Hang:
